@@ -132,7 +132,7 @@ def section_wnaf(ctx, binp, runner, st):
 
 
 def section_mexp(ctx, binp, runner, st):
-    n = 240 if ctx.quick else 6000
+    n = 240 if ctx.quick else 4000
     cases = harness_cases(ctx, binp, "mexp", n)
     if cases is None:
         return
